@@ -513,9 +513,11 @@ func extSprintf(fr *frame, args []value) value {
 	va := args[1].([]value)
 	// keep "%s/%d" symbolic-friendly: build string by concatenation when the %s part is symbolic
 	if format == "%s/%d" && len(va) == 2 {
+		// the in-flight table key: only ever compared for equality, so an injective fixed-width
+		// rendering of the integer (8 hex digits, symbolic when the integer is) stands for %d
 		s := va[0].(iface).v
-		d := i.concretize(va[1].(iface).v, "fmt %d")
-		return strConcat(strConcat(s, "/"), fmt.Sprintf("%d", asInt64(d)))
+		d := i.toInt64(va[1].(iface).v)
+		return strConcat(strConcat(s, "/"), i.fixedHex32(d))
 	}
 	if format == "%x" && len(va) == 1 {
 		if h := i.hexOfSymbolic(va[0].(iface).v); h != nil {
@@ -621,4 +623,26 @@ func (i *interpreter) findMethod(t types.Type, name string) *ssa.Function {
 		return nil
 	}
 	return i.prog.MethodValue(sel)
+}
+
+// fixedHex32 renders the low 32 bits of an integer as 8 hex digits, keeping symbolic digits symbolic.
+func (i *interpreter) fixedHex32(d value) value {
+	const digits = "0123456789abcdef"
+	c := uint32(asInt64(conc(d)))
+	bs := make([]byte, 8)
+	for k := 0; k < 8; k++ {
+		bs[k] = digits[(c>>uint(28-4*k))&15]
+	}
+	sd, ok := d.(sv)
+	if !ok {
+		return string(bs)
+	}
+	tb := i.tb
+	ts := make([]*term.Term, 8)
+	for k := 0; k < 8; k++ {
+		nib := tb.Extract(tb.Bin(term.BvLShr, sd.t, tb.BV(64, uint64(28-4*k))), 7, 0)
+		nib = tb.Bin(term.BvAnd, nib, tb.BV(8, 15))
+		ts[k] = tb.Ite(tb.Cmp(term.BvUlt, nib, tb.BV(8, 10)), tb.Bin(term.BvAdd, nib, tb.BV(8, '0')), tb.Bin(term.BvAdd, nib, tb.BV(8, 'a'-10)))
+	}
+	return mkStr(string(bs), ts)
 }
